@@ -106,6 +106,20 @@ class PurityScan(NativeCase):
         unreviewed = [x for x in sites if not any(k[1].endswith(f) and src.startswith(pref) for (f, pref) in REVIEWED_CLOCK_TESTS for k, _, src in [x])]
         self.ob('no clock value reaches a decision', not unreviewed, inputs=dict(sites=["%s:%d %s" % (k[1], ln, src) for k, ln, src in unreviewed]),
                 info="a value read from a clock is compared or tested: %s" % unreviewed[:3])
+        # ... and none may end up in an output file: fields of the rows / dictionaries the pipeline writes that hold a measured time
+        time_fields = set()
+        for k in sorted(reach):
+            for n_ in ast.walk(A.funcs[k]):
+                keys = []
+                if isinstance(n_, ast.Dict):
+                    keys = [x for x in n_.keys if isinstance(x, ast.Constant) and isinstance(x.value, str)]
+                elif isinstance(n_, ast.Subscript) and isinstance(n_.ctx, ast.Store) and isinstance(n_.slice, ast.Constant) and isinstance(n_.slice.value, str):
+                    keys = [n_.slice]
+                for x in keys:
+                    if 'time' in x.value.lower() and 'timeout' not in x.value.lower():
+                        time_fields.add("%s.%s: %s" % (k[0], k[1], x.value))
+        self.ob('no output field holds a measured time', not time_fields, inputs=dict(fields=sorted(time_fields)),
+                info="fields of written rows that hold a time measured during the run: %s" % sorted(time_fields))
         # a memoised function keeps results across blocks: only allowed when it reads nothing but its arguments
         memo = [(k, purity.memoised(A.funcs[k])) for k in sorted(reach) if purity.memoised(A.funcs[k])]
         self.ob('no memoised function inside the pipeline', not memo, inputs=dict(functions=["%s.%s %s" % (k[0], k[1], d) for k, d in memo]),
@@ -159,6 +173,24 @@ def more_order_sensitive(n, seed=13):
     return out
 
 
+def csv_diff(a, b):
+    """names of the columns in which two sets of statistics files differ (file list / row count differences are reported as such)"""
+    import csv, io
+    if sorted(a) != sorted(b):
+        return ['<file list>']
+    out = set()
+    for fn in a:
+        ra, rb = list(csv.DictReader(io.StringIO(a[fn]))), list(csv.DictReader(io.StringIO(b[fn])))
+        if len(ra) != len(rb):
+            out.add('<row count of %s>' % fn)
+            continue
+        for x, y in zip(ra, rb):
+            for k in set(x) | set(y):
+                if x.get(k) != y.get(k):
+                    out.add(k)
+    return sorted(out)
+
+
 class HashSeedReplay(NativeCase):
     prop = 'C13'
     name = "hash-seed/process replay(bounded)"
@@ -187,6 +219,7 @@ class HashSeedReplay(NativeCase):
             pool += more_order_sensitive(40)
         seeds = ['0', '1', '2', '3'] if tier == 'quick' else [str(i) for i in range(10)] + ['random']
         base = None
+        csv_cols = set()
         for opts in (dict(), dict(storage=True)):
             job = [('inproc', b, opts) for b in pool]
             results = {}
@@ -200,6 +233,14 @@ class HashSeedReplay(NativeCase):
                             inputs=inp, info="specification differs between PYTHONHASHSEED=%s and %s" % (seeds[0], sd))
                     self.ob('identical emitted code', r0.get('out') == r1.get('out') and r0.get('exc') == r1.get('exc'), inputs=inp,
                             info="%r vs %r" % (r0.get('out'), r1.get('out')))
+                    cols = csv_diff(r0.get('csv') or {}, r1.get('csv') or {})
+                    csv_cols |= set(cols)
+        # the statistics files are output files too: which columns differ between two runs on the same input (one obligation for the run)
+        # (the measured solver time is dealt with statically by the purity scan - finding F48 - because whether two measurements
+        # differ is itself run-dependent)
+        csv_cols.discard('solver_time_in_sec')
+        self.ob('identical statistics files (all columns but the measured time)', not csv_cols, inputs=dict(columns=sorted(csv_cols)),
+                info="columns of the statistics CSV that differ between two runs on the same input: %s" % sorted(csv_cols))
         self.assumptions = ("bounded: %d blocks x 2 option sets x %d hash seeds (separate processes, separate scratch directories)" % (len(pool), len(seeds)),)
 
 
